@@ -339,6 +339,166 @@ fn bank_switch(ctx: &Ctx) {
     ctx.outcome(0xB5);
 }
 
+/// Snapshot/SCR loaders must make BOTH screens of the 128K displayable: after the load the CPU flips
+/// bit 3 of the paging latch without rewriting anything.
+fn snapshot_then_flip(ctx: &Ctx) {
+    let a = latin(9);
+    let b = latin(200);
+    for (wname, w) in [("sna", 0), ("szx", 1), ("szx-zlib", 2)] {
+        for start_shadow in [false, true] {
+            let mut s = MState::new(true, 4);
+            s.port7ffd = if start_shadow { 0x08 } else { 0x00 };
+            s.regs.pc = 0x8800;
+            s.regs.sp = 0xBF00;
+            s.regs.iff1 = false;
+            s.regs.iff2 = false;
+            s.banks[5][..6912].copy_from_slice(&a);
+            s.banks[7][..6912].copy_from_slice(&b);
+            // program in bank 2: wait two frames' worth, flip bit 3, idle
+            let flip = if start_shadow { 0x00 } else { 0x08 };
+            let prog: Vec<u8> = vec![
+                0xF3, // DI
+                0x01, 0x00, 0x40, // LD BC,4000h
+                0x0B, 0x78, 0xB1, 0x20, 0xFB, // loop: DEC BC; LD A,B; OR C; JR NZ,loop  (~26 T x 16384 = 6 frames)
+                0x01, 0xFD, 0x7F, 0x3E, flip, 0xED, 0x79, // LD BC,7FFD; LD A,flip; OUT (C),A
+                0x18, 0xFE, // JR $
+            ];
+            s.banks[2][0x0800..0x0800 + prog.len()].copy_from_slice(&prog);
+            let file = match w {
+                0 => sna128(&s),
+                1 => szx(&s, &SzxOpts::default()),
+                _ => szx(&s, &SzxOpts { compressed: true, ..SzxOpts::default() }),
+            };
+            let mut o = Opts::k128();
+            o.sound = false;
+            let mut e = rig::emu(&o);
+            let snap = if w == 0 { Snapshot::Sna(VAsset::new(file)) } else { Snapshot::Szx(VAsset::new(file)) };
+            if e.load_snapshot(snap).is_err() {
+                continue;
+            }
+            ctx.add_eval(1);
+            let case = json!({"kind":"snapshot-flip","writer":wname,"start_shadow":start_shadow});
+            frames(&mut e, 3);
+            let mem = displayed_memory(&e, true);
+            let first = if start_shadow { &b } else { &a };
+            if mem[..] != first[..] || compare_frame(&e, &mem).is_err() {
+                ctx.violation(&format!("C08:snapshot-then-flip:{}:before-flip", wname), &format!("{} snapshot: picture before the flip is not the decode of the displayed bank", wname), case.clone());
+                continue;
+            }
+            frames(&mut e, 8);
+            let mem = displayed_memory(&e, true);
+            let second = if start_shadow { &a } else { &b };
+            if mem[..] != second[..] {
+                ctx.violation(&format!("C08:snapshot-then-flip:{}:latch", wname), "the program did not flip the screen bank (harness)", case.clone());
+                continue;
+            }
+            if let Err((x, y, g, wnt)) = compare_frame(&e, &mem) {
+                ctx.violation(
+                    &format!("C08:snapshot-then-flip:{}:picture-after-flip", wname),
+                    &format!("{} snapshot with pictures in both screen banks (shown first: bank {}): after the program flips bit 3 of 7FFD the picture is not the decode of the now displayed bank: pixel ({},{}) {:02x} vs {:02x}", wname, if start_shadow { 7 } else { 5 }, x, y, g, wnt),
+                    case,
+                );
+            }
+            ctx.outcome(0x5F00 + w as u64 * 2 + start_shadow as u64);
+        }
+    }
+}
+
+/// Beam clause without ever placing the clock: the CPU idles (JR $) from the frame start until
+/// the chosen moment, so the renderer's own scheduling of its work is part of what is tested.
+fn beam_clause_free_running(ctx: &Ctx, is128: bool, lines: &[usize]) {
+    let sp = spec(is128);
+    let jobs: Vec<(usize, usize)> = lines.iter().flat_map(|l| [0usize, 15, 31].into_iter().map(move |c| (*l, c))).collect();
+    par_for(jobs.len(), 1, |j| {
+        let (line, col) = jobs[j];
+        let mut o = Opts::machine(is128);
+        o.sound = false;
+        let mut e = rig::emu_stepping(&o);
+        let y = line;
+        let off = ((y & 0xC0) << 5) | ((y & 7) << 8) | ((y & 0x38) << 2) | col;
+        let addr = 0x4000 + off as u16;
+        let attr_addr = 0x5800 + ((y >> 3) * 32 + col) as u16;
+        let fetch = sp.first_pixel as i64 + (line as i64) * sp.line as i64 + (col as i64) * 4;
+        rig::poke(&mut e, IDLE, &[0xF3, 0x18, 0xFE]);
+        rig::poke(&mut e, 0x9100, &[0x77, 0xC3, (IDLE + 1) as u8, (IDLE >> 8) as u8]);
+        let idle = |e: &mut Emu| {
+            let mut r = RegsView::default();
+            r.pc = IDLE + 1;
+            r.sp = 0xBF00;
+            rig::set_regs(e.verif_cpu(), &r);
+        };
+        let store = |e: &mut Emu, a: u16, v: u8| {
+            let mut r = RegsView::default();
+            r.pc = 0x9100;
+            r.sp = 0xBF00;
+            r.hl = a;
+            r.af = (v as u16) << 8;
+            rig::set_regs(e.verif_cpu(), &r);
+            rig::step(e);
+            rig::step(e);
+        };
+        store(&mut e, attr_addr, 0x07);
+        let mut old = 0x0Fu8;
+        store(&mut e, addr, old);
+        // targets: well before, around and well after the fetch, and far away in the frame
+        for dtarget in [-20000i64, -3000, -400, -120, -60, -36, 30, 60, 120, 400, 3000, 20000] {
+            let target = fetch + dtarget;
+            if target < 200 || target > sp.frame as i64 - 200 {
+                continue;
+            }
+            let new = !old;
+            idle(&mut e);
+            // finish this frame and one more complete frame with the old value
+            let f0 = e.verif_total_frames();
+            while e.verif_total_frames() < f0 + 2 {
+                rig::step(&mut e);
+            }
+            // idle until just before the target, then store
+            while (e.verif_frame_clocks() as i64) < target - 12 {
+                rig::step(&mut e);
+            }
+            let t = e.verif_frame_clocks() as i64;
+            store(&mut e, addr, new);
+            idle(&mut e);
+            let f1 = e.verif_total_frames();
+            while e.verif_total_frames() < f1 + 1 {
+                rig::step(&mut e);
+            }
+            let shown = |e: &Emu| -> u8 {
+                let pix = &rig::canvas(e).pix;
+                let mut b = 0u8;
+                for k in 0..8 {
+                    if pix[y * 256 + col * 8 + k] & 7 == 7 {
+                        b |= 0x80 >> k;
+                    }
+                }
+                b
+            };
+            let cur = shown(&e);
+            while e.verif_total_frames() < f1 + 2 {
+                rig::step(&mut e);
+            }
+            let next = shown(&e);
+            ctx.add_eval(1);
+            let case = json!({"kind":"beam-free","m128":is128,"line":line,"col":col,"dtarget":dtarget});
+            let clearly_before = t + 13 < fetch - 16;
+            let clearly_after = t + 4 > fetch + 16;
+            let mname = if is128 { "128k" } else { "48k" };
+            if clearly_before && cur != new {
+                ctx.violation(&format!("C08:beam-free-running:stored-before-fetch-not-in-current-frame:{}", mname), &format!("line {} column {}: byte stored {} T before the ULA fetch (free-running CPU) shows {:02x} in the current frame, new value {:02x}", line, col, fetch - t, cur, new), case.clone());
+            }
+            if clearly_after && cur != old {
+                ctx.violation(&format!("C08:beam-free-running:stored-after-fetch-visible-too-early:{}", mname), &format!("line {} column {}: byte stored {} T after the ULA fetch (free-running CPU) already shows {:02x} in the current frame (old value {:02x})", line, col, t - fetch, cur, old), case.clone());
+            }
+            if next != new {
+                ctx.violation(&format!("C08:beam-free-running:not-in-next-frame:{}", mname), &format!("line {} column {}: stored byte {:02x} is not shown in the next frame ({:02x})", line, col, new, next), case);
+            }
+            ctx.outcome((cur == new) as u64 | ((dtarget + 30000) as u64) << 1);
+            old = new;
+        }
+    });
+}
+
 /// Beam-relative clause: a byte stored clearly before (after) the beam fetches it appears in the
 /// current (next) frame.
 fn beam_clause(ctx: &Ctx, is128: bool, lines: &[usize]) {
@@ -484,9 +644,12 @@ pub fn run(tier: Tier, seed: u64, replay: Option<String>) -> i32 {
         flash_period(&ctx, c);
     }
     bank_switch(&ctx);
+    snapshot_then_flip(&ctx);
     let lines: Vec<usize> = if quick { vec![0, 1, 7, 8, 63, 64, 65, 100, 127, 128, 190, 191] } else { (0..192).collect() };
     beam_clause(&ctx, false, &lines);
     beam_clause(&ctx, true, &lines);
+    beam_clause_free_running(&ctx, false, &lines);
+    beam_clause_free_running(&ctx, true, &lines);
     ctx.add_nontrivial(jobs.len() as u64);
     ctx.sample(json!({"cfg":"K128Shadow","writer":"SzxZlib","content":"latin8"}));
     ctx.note("contents", json!(contents.len()));
